@@ -573,11 +573,14 @@ def single_assignments(fn: ast.AST) -> dict[str, ast.expr]:
             and k not in params}
 
 
-def inline_locals(fn: ast.AST, e: ast.expr, depth: int = 6) -> ast.expr:
+def inline_locals(fn: ast.AST, e: ast.expr, depth: int = 6,
+                  keep: set[str] | None = None) -> ast.expr:
     """`e` with every single-assignment local of `fn` replaced by the
-    expression it is bound to (aliases and hoisted temporaries)."""
+    expression it is bound to (aliases and hoisted temporaries); names in
+    `keep` are left alone."""
     import copy
-    sa_ = single_assignments(fn)
+    sa_ = {k: v for k, v in single_assignments(fn).items()
+           if not keep or k not in keep}
 
     class T(ast.NodeTransformer):
         def __init__(self, d: int) -> None:
